@@ -410,3 +410,12 @@ func (v *V) AnyNested(p func(*V) bool) bool {
 	})
 	return found
 }
+
+// Elems0SugarAttr reports the sugar attribute of the first member of set v,
+// if that member is a sugar-shaped pair.
+func (v *V) Elems0SugarAttr() (string, bool) {
+	if v.K != KSet || len(v.Elems) == 0 {
+		return "", false
+	}
+	return v.Elems[0].SugarAttr()
+}
